@@ -29,6 +29,19 @@ PROPS = {
         explanation="quiescence theorems + two-step termination of Wait",
         lean_modules=["Properties.C02"],
         **GSYNC_COMMON),
+    "C03": dict(
+        title="gconfig: dimension resolution selects exactly the active branch",
+        lean_modules=["Properties.C03"],
+        harness=[dict(bin="h-gconfig")],
+        trusted=[GO_TRUST % "h-gconfig", "gopkg.in/yaml.v3 parsing of the (JSON-subset) document text and its re-marshal/unmarshal in Get (typed conversion is not modelled)",
+                 "the genum-generated ParseGeneric of the harness's dimension enums (modelled as exact-then-lower-case name match)"],
+        assumptions=["documents are well-formed in the sense of the quantifier (Lean predicate WF; the driver marks every non-WF document so the domain stream cannot leave it)",
+                     "the flag-package path of dimension selection is not modelled (the property names default and environment only)"],
+        level_text="Machine-checked Lean 4 theorem reduce_eq_resolve: on EVERY well-formed document (any depth, any nesting order, any number of registered dimensions) the mirror of reduceAny/reduce/keySet equals the specification written from the property text (replace each dimension-keyed map by the selected entry, else default, else fail; keep other maps; recurse into lists), by mutual structural induction over the nested document type; plus Get = path lookup, missing-branch => load error, selection via default/env spellings, and independence from Go's map iteration order. Tied to /repo by differential runs: generated documents x dimension assignments through the real Builder.FromBytes, then Get[any] at every path of the expected tree.",
+        level_note="Trusted: Lean kernel + standard axioms; yaml.v3; the harness/driver. The typed conversion in Get (yaml re-marshal) is observed, not modelled. The model mirrors the repaired reduceAny (see known_findings.json); the pinned algorithm's failures are kept as corpus replays, not as a Lean model.",
+        technique="Lean 4 proof (mutual structural induction over nested document trees: code mirror = specification) + differential correspondence through Builder.FromBytes/Get",
+        explanation="reduce_eq_resolve for all WF documents; correspondence on generated documents x assignments",
+    ),
     "C11": dict(
         title="set: BitSet is exact bit-set algebra and reports changes truthfully",
         lean_modules=["Properties.C11"],
